@@ -20,8 +20,9 @@ func init() {
 	mon.Register(&mon.Property{
 		ID:    "C01",
 		Level: "exploration",
-		Rule: "seeded API descriptions (base path in {/, '', /api, /api/, /a/b}; 1..12 templates over a 6-word alphabet with {name}, x{name}, {a}.{b}, {a}.json segments, trailing slashes, root; any method subset) x request targets " +
+		Rule: "seeded API descriptions (base path in {/, '', /api, /api/, /a/b}; 1..12 templates over a 6-word alphabet with {name}, x{name}, {a}.{b}, {a}.json, {a}.pdf / {a}:cancel / {a}.{b}.gz (a literal closing the segment) segments, trailing slashes, root; any method subset) x request targets " +
 			"(template instantiations with hostile values under a hostile percent-encoder, then mutated: duplicate/trailing slashes, dot segments, edits) x methods in random letter case; requests are parsed by net/http's own request parser (http.ReadRequest; also real loopback TCP). " +
+			"1 request in 4 to a template with a composite segment leaves out, cuts short, re-cases, replaces or extends one literal of that segment (2 in 3 the closing one: /reports/7, /reports/7.csv, /reports/7.pdf.sig for /reports/{id}.pdf). " +
 			"One template in 14 is x{a} beside a plain {p} (the kind of prefixed template the unchanged tree dispatches), one in 10 is declared under (nearly) all seven methods; 3 requests in 16 carry Accept: text/x-none / a text/x-none body / no Accept at all. " +
 			"3 descriptions in 10 are served through another exported constructor: RoutesHandler(Builder), APIHandler(Builder), Serve, ServeWithBuilder, and (1 in 10) a generated-server style RoutableAPI under NewRoutableContext whose parameter objects read route.Params.Get; a Builder middleware notes MatchedRouteFrom(r).PathPattern/.Params. " +
 			"Oracle = segment-wise matcher on path.Clean(URL.EscapedPath()) written from the statement; the escaped path is noted BEFORE the library gets the request (TCP: by a wrapper around the library's handler inside the server). non-trivial = (description hash, METHOD, cleaned target) where some template fits under some method or the target shares >= 2 leading segments with a template; distinct by that triple",
@@ -33,6 +34,7 @@ func init() {
 			"MatchedRouteFrom(r) seen by a Builder middleware: when present its PathPattern must be the designated template under the base path and Params.Get(name) the value the handler received; its absence is only counted (class matched-route-absent-from-context); a request URL rewritten by the library is only counted (class request-url-rewritten-by-the-library)",
 			"loopback TCP arm: the listener is opened with 5 attempts, each request is sent up to 3 times on fresh connections; a request that never reached the library's handler and got no answer is counted (tcp-undelivered, note tcp_undelivered), a listener that cannot be opened is counted (tcp-harness-listen-failed, note tcp_listen_failed): neither is ever a violation. A panic of the library under the real server is a violation (the wrapper catches it before net/http does); 'handler returned, no parsable answer' is judged as an answer without status only when all three attempts went that way",
 			"signature classes: prefixed-placeholder-segment/routed-as-parameter = every x{a} template the request meets also has a plain {p} segment, no {a}.{b} segment, and the request writes each literal as declared followed by a non-empty text (dispatched by the unchanged tree, never a known finding); .../empty-text-after-literal = the same but a request segment is just the literal; panic/colon-or-star-.../no-two-wildcards-at-one-position = a panic for a request that does not reach two '*' literals at one trie position under one method (the recorded panic needs two)",
+			"signature classes of handler-ran-without-fit/composite-segment: the recorded defect (the segment is one parameter of the trie router, split afterwards) leaves the placeholder in front of a literal that the request lacks EMPTY (422 'required' from the untyped binder, an empty text in a generated server). .../text-bound-before-absent-closing-literal = the template whose handler ran has a segment closed by a literal ({id}.pdf, {a}.{b}.gz) that the request's segment does not end with (as sent or decoded), and the handler received a non-empty text for the placeholder in front of it; .../every-placeholder-bound-to-text = the handler received a non-empty text for every placeholder of its template. Neither is covered by a known finding; the unchanged tree runs no handler for such requests through the untyped binder (class no-fit-and-closing-literal-of-composite-absent[-no-handler-ran])",
 		},
 		MinNontrivial: 300,
 		Run:           run,
@@ -582,8 +584,24 @@ func runCase(m *mon.M, c *Case) {
 				m.Class("dispatched-with-competitors")
 			}
 		} else {
+			if closingLiteralAbsent(refs, method, segs) {
+				m.Class("no-fit-and-closing-literal-of-composite-absent") // (input only: how often the shape is driven)
+				if s.obs.ran == 0 {
+					m.Class("no-fit-and-closing-literal-of-composite-absent-no-handler-ran")
+				}
+			}
 			if s.obs.ran > 0 {
-				m.Violate("handler-ran-without-fit/"+feat, fmt.Sprintf("%s %q (cleaned %q): handler of %s ran although no template fits under %s", rq.Method, rq.Target, cleaned, s.obs.ranOp, method), one)
+				runFeat := feat
+				if feat == "composite-segment" {
+					// The recorded defect of composite segments hands a handler that runs without a fit an EMPTY text
+					// for some placeholder (the segment is one parameter of the trie router, split afterwards; the piece
+					// whose literal the request lacks is empty: 422 from the untyped binder, "" in a generated server).
+					// A handler that runs with texts the recorded defect cannot hand over has a class of its own.
+					if sub := compositeRunSubclass(refs, s.obs.ranOp, s.obs.params, segs); sub != "" {
+						runFeat = feat + "/" + sub
+					}
+				}
+				m.Violate("handler-ran-without-fit/"+runFeat, fmt.Sprintf("%s %q (cleaned %q): handler of %s ran (received %q) although no template fits under %s", rq.Method, rq.Target, cleaned, s.obs.ranOp, fmt.Sprint(s.obs.params), method), one)
 				continue
 			}
 			var allow []string
@@ -830,6 +848,79 @@ func panicFeature(refs []*refTemplate, segs []string) string {
 	return f
 }
 
+const (
+	// the handler ran without a fit and received a text for the placeholder in front of a closing literal
+	// ({id}.pdf, {a}.{b}.gz) that the request's segment does not end with
+	subClosingAbsent = "text-bound-before-absent-closing-literal"
+	// the handler ran without a fit and received a non-empty text for every placeholder of its template
+	subAllBound = "every-placeholder-bound-to-text"
+)
+
+// absentClosingLiterals: for each composite segment of the template that is closed by a literal ({a}.json,
+// {a}.{b}.gz, x-{a}-v1) which the request's segment does not end with (as sent or decoded), the name of the
+// placeholder in front of that literal. Input feature only.
+func absentClosingLiterals(rt *refTemplate, segs []string) (names []string) {
+	if len(rt.segs) != len(segs) {
+		return nil
+	}
+	for i, parts := range rt.segs {
+		if n := len(parts); n > 1 && parts[n-1].name == "" && parts[n-2].name != "" {
+			lit := parts[n-1].lit
+			if !strings.HasSuffix(segs[i], lit) && !strings.HasSuffix(decodedOr(segs[i]), lit) {
+				names = append(names, parts[n-2].name)
+			}
+		}
+	}
+	return names
+}
+
+// closingLiteralAbsent: some template of the method fits the request loosely but for the closing literal of a
+// composite segment, which the request's segment lacks (the caller knows that no template of the method fits).
+// Input feature only.
+func closingLiteralAbsent(refs []*refTemplate, method string, segs []string) bool {
+	for _, rt := range refs {
+		if strings.ToUpper(rt.op.Method) == method && looseFit(rt, segs) && len(absentClosingLiterals(rt, segs)) > 0 {
+			return true
+		}
+	}
+	return false
+}
+
+// compositeRunSubclass names what the recorded defect of composite segments cannot explain about a handler
+// that ran without a fit (the request is in the class composite-segment): the recorded defect leaves the
+// placeholder in front of a literal that the request lacks EMPTY. "" = nothing of the kind (the recorded form).
+func compositeRunSubclass(refs []*refTemplate, ranOp string, got map[string]string, segs []string) string {
+	var rt *refTemplate
+	for _, x := range refs {
+		if x.op.ID == ranOp {
+			rt = x
+		}
+	}
+	if rt == nil || !looseFit(rt, segs) {
+		return ""
+	}
+	for _, n := range absentClosingLiterals(rt, segs) {
+		if got[n] != "" {
+			return subClosingAbsent
+		}
+	}
+	all := false
+	for _, parts := range rt.segs {
+		for _, p := range parts {
+			if p.name != "" {
+				if got[p.name] == "" {
+					return ""
+				}
+				all = true
+			}
+		}
+	}
+	if all {
+		return subAllBound
+	}
+	return ""
+}
+
 // occursOnce: lit occurs in s at exactly one position (overlapping occurrences count: "---" holds "--" twice).
 func occursOnce(s, lit string) bool {
 	i := strings.Index(s, lit)
@@ -880,6 +971,9 @@ var richLiterals = []string{"items:batchGet", "a*w9", "v=1", "caf\u00e9", "Users
 // operation's parameters keys them by their Go-ified name, under which "a.b" and "ab" are the same parameter)
 var placeholderWords = append([]string{"api", "a", "b", "x", "p", "ap", "book.id", "v~1", "k$", "id!"}, gen.Words...)
 
+// literals that close a composite segment ({id}.pdf, {name}:cancel, {a}.{b}.gz)
+var closingLiterals = []string{".pdf", ".gz", ":cancel", "_v1", ".json", ".x"}
+
 func genTemplate(r *rand.Rand, id int) string {
 	if r.Intn(25) == 0 {
 		return "/"
@@ -904,7 +998,13 @@ func genTemplate(r *rand.Rand, id int) string {
 	}
 	for s := 0; s < nseg; s++ {
 		sb.WriteByte('/')
-		switch k := r.Intn(120); {
+		switch k := r.Intn(123); {
+		case k == 120:
+			// one placeholder closed by a literal other than ".json" (".pdf", a custom verb, a version tag)
+			sb.WriteString("{" + name() + "}" + closingLiterals[r.Intn(len(closingLiterals))])
+		case k > 120:
+			// two placeholders and a closing literal: {name}.{ext}.gz
+			sb.WriteString("{" + name() + "}" + []string{".", ".", "--"}[r.Intn(3)] + "{" + name() + "}" + closingLiterals[r.Intn(len(closingLiterals))])
 		case k < 56:
 			sb.WriteString(gen.Pick(r, gen.Words))
 		case k < 110:
@@ -1072,6 +1172,81 @@ func instantiate(r *rand.Rand, base, tpl string) string {
 	return sb.String()
 }
 
+// hasCompositeSegment: some segment of the template has a placeholder and a literal, or several placeholders.
+func hasCompositeSegment(tpl string) bool {
+	for _, s := range splitSegs(tpl) {
+		if len(parseSeg(s)) > 1 {
+			return true
+		}
+	}
+	return false
+}
+
+var foreignClosings = []string{".csv", ".sig", ".bz2", ":undo", "_v2", "x", "."}
+
+// instantiateDamaged instantiates the template like instantiate, but one literal of one of its composite
+// segments (2 times in 3 the literal that closes the segment, when there is one) is left out, cut short,
+// written in another letter case, replaced by a foreign text or followed by one: /reports/7, /reports/7.csv,
+// /reports/7.pdf.sig for /reports/{id}.pdf. Whether the result still instantiates some template is for the
+// reference model to say.
+func instantiateDamaged(r *rand.Rand, base, tpl string) string {
+	full := path.Join("/", base, tpl)
+	segs := splitSegs(full)
+	var cands []int
+	for i, s := range segs {
+		if len(parseSeg(s)) > 1 {
+			cands = append(cands, i)
+		}
+	}
+	if len(cands) == 0 {
+		return instantiate(r, base, tpl)
+	}
+	target := cands[r.Intn(len(cands))]
+	var sb strings.Builder
+	for i, s := range segs {
+		sb.WriteByte('/')
+		parts := parseSeg(s)
+		hit := -1
+		if i == target {
+			var lits []int
+			for j, p := range parts {
+				if p.name == "" {
+					lits = append(lits, j)
+				}
+			}
+			if len(lits) > 0 {
+				hit = lits[r.Intn(len(lits))]
+				if last := len(parts) - 1; parts[last].name == "" && r.Intn(3) > 0 {
+					hit = last
+				}
+			}
+		}
+		for j, p := range parts {
+			switch {
+			case p.name != "":
+				sb.WriteString(encodeValue(r, genValue(r)))
+			case j != hit:
+				sb.WriteString(p.lit)
+			default:
+				switch r.Intn(6) {
+				case 0, 1: // left out
+				case 2: // cut short
+					sb.WriteString(p.lit[:len(p.lit)-1])
+				case 3: // replaced
+					sb.WriteString(foreignClosings[r.Intn(len(foreignClosings))])
+				case 4: // followed by a foreign text
+					sb.WriteString(p.lit + foreignClosings[r.Intn(len(foreignClosings))])
+				default: // another letter case (paths are case-sensitive)
+					if up := strings.ToUpper(p.lit); up != p.lit {
+						sb.WriteString(up)
+					}
+				}
+			}
+		}
+	}
+	return sb.String()
+}
+
 func mutateTarget(r *rand.Rand, t string) string {
 	switch r.Intn(10) {
 	case 9: // another letter case of one letter: paths are case-sensitive
@@ -1142,7 +1317,13 @@ func genRequests(r *rand.Rand, d *gen.Desc, n int) []Req {
 	var out []Req
 	for len(out) < n {
 		op := d.Ops[r.Intn(len(d.Ops))]
-		t := instantiate(r, d.BasePath, op.Template)
+		var t string
+		if hasCompositeSegment(op.Template) && r.Intn(4) == 0 {
+			// a request that misses (or garbles) a literal of a composite segment of the template
+			t = instantiateDamaged(r, d.BasePath, op.Template)
+		} else {
+			t = instantiate(r, d.BasePath, op.Template)
+		}
 		if r.Intn(3) == 0 {
 			t = mutateTarget(r, t)
 		}
